@@ -21,6 +21,8 @@ pub enum V<'tcx> {
     Ref(Ptr<'tcx>),
     Fn(Ty<'tcx>),
     Str(String),
+    /// abstract cursor over a slice / array of concrete length (slice::Iter, IterMut, array::IntoIter)
+    Iter { ptr: Ptr<'tcx>, front: usize, back: usize, by_value: bool },
     Undef,
 }
 #[derive(Clone, Copy, Debug, PartialEq)]
@@ -37,9 +39,11 @@ pub struct Seg<'tcx> {
 pub struct Ptr<'tcx> {
     pub cell: usize,
     pub segs: Vec<Seg<'tcx>>,
+    /// Some((start, len)): the pointee is the slice of elements [start, start+len) of the array the segments designate
+    pub win: Option<(usize, usize)>,
 }
 pub fn ptr0<'tcx>(cell: usize) -> Ptr<'tcx> {
-    Ptr { cell, segs: vec![Seg { view: None, path: vec![] }] }
+    Ptr { cell, segs: vec![Seg { view: None, path: vec![] }], win: None }
 }
 
 #[derive(Clone)]
@@ -347,6 +351,18 @@ impl<'tcx> Cx<'tcx> {
             cur = self.nav(&cur, &seg.path)?;
             cty = nty;
         }
+        if let Some((start, len)) = p.win {
+            let n = self.field_tys(cty).map(|f| f.len()).ok_or("window over a non-array")?;
+            if start + len > n {
+                return Err("slice window out of range".into());
+            }
+            cur = match cur {
+                V::Agg(fs) if fs.len() == n => V::Agg(fs[start..start + len].to_vec()),
+                V::Undef => V::Agg(vec![V::Undef; len]),
+                V::Sym(t) => V::Agg((start..start + len).map(|i| V::Sym(app("proj", vec![t, cint(&i.to_string())]))).collect()),
+                other => return Err(format!("window over {:?}", other)),
+            };
+        }
         Ok(cur)
     }
     fn ptr_ty(&self, st: &State<'tcx>, p: &Ptr<'tcx>) -> R<Ty<'tcx>> {
@@ -357,7 +373,32 @@ impl<'tcx> Cx<'tcx> {
             }
             cty = self.ty_at(cty, &seg.path)?;
         }
+        if p.win.is_some() {
+            if let ty::Array(elem, _) = cty.kind() {
+                return Ok(Ty::new_slice(self.tcx, *elem));
+            }
+            return Err("window over a non-array".into());
+        }
         Ok(cty)
+    }
+    /// the array type a windowed pointer ranges over
+    fn win_elem_ty(&self, st: &State<'tcx>, p: &Ptr<'tcx>) -> R<Ty<'tcx>> {
+        let mut q = p.clone();
+        q.win = None;
+        match self.ptr_ty(st, &q)?.kind() {
+            ty::Array(elem, _) => Ok(*elem),
+            other => Err(format!("window over {:?}", other)),
+        }
+    }
+    fn elem_ptr(&self, p: &Ptr<'tcx>, i: usize) -> R<Ptr<'tcx>> {
+        let (start, len) = p.win.ok_or("element of a non-slice pointer")?;
+        if i >= len {
+            return Err(format!("PANIC:slice index {} out of range for length {}", i, len));
+        }
+        let mut q = p.clone();
+        q.win = None;
+        q.segs.last_mut().unwrap().path.push(PE::F(start + i));
+        Ok(q)
     }
     /// leaf offset of the pointee inside its cell, in layout order
     fn ptr_offset(&self, st: &State<'tcx>, p: &Ptr<'tcx>) -> Option<usize> {
@@ -379,6 +420,11 @@ impl<'tcx> Cx<'tcx> {
                     }
                     PE::Var(_) => return None,
                 }
+            }
+        }
+        if let Some((start, _)) = p.win {
+            if let ty::Array(elem, _) = cty.kind() {
+                off += start * self.leaf_count(*elem);
             }
         }
         Some(off)
@@ -403,6 +449,9 @@ impl<'tcx> Cx<'tcx> {
         }
     }
     pub fn write(&self, st: &mut State<'tcx>, p: &Ptr<'tcx>, new: V<'tcx>) -> R<()> {
+        if p.win.is_some() {
+            return Err("write of a whole slice".into());
+        }
         let c = st.cells[p.cell].clone();
         let nv = self.upd(c.v, c.ty, &p.segs, new)?;
         st.cells[p.cell].v = nv;
@@ -422,13 +471,41 @@ impl<'tcx> Cx<'tcx> {
                     V::Sym(t) => return Err(format!("deref of symbolic {}", show(t))),
                     other => return Err(format!("deref of non-ref {:?}", other)),
                 },
-                ProjectionElem::Field(f, _) => p.segs.last_mut().unwrap().path.push(PE::F(f.as_usize())),
+                ProjectionElem::Field(f, _) => {
+                    if p.win.is_some() {
+                        return Err("field of a slice".into());
+                    }
+                    p.segs.last_mut().unwrap().path.push(PE::F(f.as_usize()))
+                }
                 ProjectionElem::Index(l) => match self.read(st, &ptr0(fr.locals[l.as_usize()]))? {
-                    V::Int(i) => p.segs.last_mut().unwrap().path.push(PE::F(i as usize)),
+                    V::Int(i) => {
+                        if p.win.is_some() {
+                            p = self.elem_ptr(&p, i as usize)?;
+                        } else {
+                            p.segs.last_mut().unwrap().path.push(PE::F(i as usize))
+                        }
+                    }
                     other => return Err(format!("symbolic index {:?}", other)),
                 },
-                ProjectionElem::ConstantIndex { offset, from_end: false, .. } => {
-                    p.segs.last_mut().unwrap().path.push(PE::F(offset as usize))
+                ProjectionElem::ConstantIndex { offset, from_end, .. } => {
+                    if let Some((_, len)) = p.win {
+                        let i = if from_end { len.checked_sub(offset as usize).ok_or("constant index from end")? } else { offset as usize };
+                        p = self.elem_ptr(&p, i)?;
+                    } else if from_end {
+                        let n = self.field_tys(self.ptr_ty(st, &p)?).map(|f| f.len()).ok_or("constant index from end of a non-array")?;
+                        p.segs.last_mut().unwrap().path.push(PE::F(n - offset as usize))
+                    } else {
+                        p.segs.last_mut().unwrap().path.push(PE::F(offset as usize))
+                    }
+                }
+                ProjectionElem::Subslice { from, to, from_end } => {
+                    let (start, len) = match p.win {
+                        Some(w) => w,
+                        None => (0, self.field_tys(self.ptr_ty(st, &p)?).map(|f| f.len()).ok_or("subslice of a non-array")?),
+                    };
+                    let (from, to) = (from as usize, to as usize);
+                    let nlen = if from_end { len.checked_sub(from + to) } else { to.checked_sub(from) }.ok_or("subslice bounds")?;
+                    p.win = Some((start + from, nlen));
                 }
                 ProjectionElem::Downcast(_, k) => p.segs.last_mut().unwrap().path.push(PE::Var(k.as_u32())),
                 other => return Err(format!("projection {:?}", other)),
@@ -545,6 +622,7 @@ impl<'tcx> Cx<'tcx> {
             },
             V::Fn(t) => atom(&format!("fn:{:?}", t)),
             V::Str(s) => cstr(s),
+            V::Iter { .. } => atom("slice-iterator"),
             V::Undef => atom("undef"),
         }
     }
@@ -639,6 +717,10 @@ impl<'tcx> Cx<'tcx> {
                 }
                 Div if y != 0 => return if signed { wrap(sx.wrapping_div(sy) as u128) } else { wrap(x / y) },
                 Rem if y != 0 => return if signed { wrap(sx.wrapping_rem(sy) as u128) } else { wrap(x % y) },
+                Cmp => {
+                    let o = if signed { sx.cmp(&sy) } else { x.cmp(&y) };
+                    return V::Enum(match o { std::cmp::Ordering::Less => 0, std::cmp::Ordering::Equal => 1, std::cmp::Ordering::Greater => 2 }, vec![]);
+                }
                 Eq => return bv(x == y),
                 Ne => return bv(x != y),
                 Lt => return bv(if signed { sx < sy } else { x < y }),
@@ -727,6 +809,7 @@ impl<'tcx> Cx<'tcx> {
                         }
                         Ok(V::Sym(app("neg", vec![t])))
                     }
+                    (UnOp::PtrMetadata, V::Ref(p)) if p.win.is_some() => Ok(V::Int(p.win.unwrap().1 as u128)),
                     (UnOp::PtrMetadata, _) => Ok(V::Sym(app("len", vec![self.to_term(st, &a)]))),
                 }
             }
@@ -794,6 +877,8 @@ impl<'tcx> Cx<'tcx> {
                             Ok(V::Ref(p))
                         }
                         (V::Sym(t), _) => Ok(V::Sym(app("transmute", vec![t]))),
+                        // by-value reinterpretation between aggregates with the same leaves
+                        (v @ (V::Agg(_) | V::Undef), _) if self.field_tys(sty).is_some() && self.field_tys(ty).is_some() => self.review(&v, sty, ty),
                         (v, _) => Err(format!("transmute of {:?} to {:?}", v, ty)),
                     },
                     CastKind::IntToInt => match v {
@@ -824,7 +909,21 @@ impl<'tcx> Cx<'tcx> {
                         }
                     }
                     CastKind::FloatToInt => Ok(V::Sym(app("float_to_int", vec![self.to_term(st, &v)]))),
-                    CastKind::PointerCoercion(..) => Ok(v),
+                    CastKind::PointerCoercion(..) => {
+                        // &[T; N] -> &[T]: remember the length as a window over the array
+                        if let (V::Ref(p), ty::Ref(_, inner, _) | ty::RawPtr(inner, _)) = (&v, ty.kind()) {
+                            if matches!(inner.kind(), ty::Slice(_)) && p.win.is_none() {
+                                if let Ok(pt) = self.ptr_ty(st, p) {
+                                    if let Some(n) = self.field_tys(pt).map(|f| f.len()).filter(|_| matches!(pt.kind(), ty::Array(..))) {
+                                        let mut q = p.clone();
+                                        q.win = Some((0, n));
+                                        return Ok(V::Ref(q));
+                                    }
+                                }
+                            }
+                        }
+                        Ok(v)
+                    }
                     CastKind::Subtype => Ok(v),
                     other => Ok(V::Sym(app(&format!("cast<{:?}>", other), vec![self.to_term(st, &v)]))),
                 }
@@ -865,6 +964,9 @@ impl<'tcx> Cx<'tcx> {
     }
     fn top(&self, why: String, sp: Span) -> Outcome<'tcx> {
         self.stats.borrow_mut().leaves += 1;
+        if let Some(rest) = why.strip_prefix("PANIC:") {
+            return Outcome::Panic(rest.to_string(), self.span_str(sp));
+        }
         Outcome::Top(format!("{} @ {}", why, self.span_str(sp)))
     }
     fn run_from(&self, st0: &mut State<'tcx>, base: usize) -> Outcome<'tcx> {
@@ -914,6 +1016,25 @@ impl<'tcx> Cx<'tcx> {
                     StatementKind::SetDiscriminant { .. } => return self.top("SetDiscriminant".into(), stmt.source_info.span),
                     StatementKind::Intrinsic(i) => match &**i {
                         mir::NonDivergingIntrinsic::Assume(_) => {}
+                        mir::NonDivergingIntrinsic::CopyNonOverlapping(c) => {
+                            let r: R<()> = (|| {
+                                let cnt = self.eval_operand(&mut st, &c.count)?;
+                                if !matches!(cnt, V::Int(1)) {
+                                    return Err("copy_nonoverlapping with count != 1".to_string());
+                                }
+                                let (src, dst) = (self.eval_operand(&mut st, &c.src)?, self.eval_operand(&mut st, &c.dst)?);
+                                match (src, dst) {
+                                    (V::Ref(a), V::Ref(b)) => {
+                                        let v = self.read(&st, &a)?;
+                                        self.write(&mut st, &b, v)
+                                    }
+                                    _ => Err("copy_nonoverlapping on non-pointers".to_string()),
+                                }
+                            })();
+                            if let Err(e) = r {
+                                return self.top(e, stmt.source_info.span);
+                            }
+                        }
                         _ => return self.top("intrinsic statement".into(), stmt.source_info.span),
                     },
                     _ => {}
@@ -1054,6 +1175,10 @@ impl<'tcx> Cx<'tcx> {
                     match self.call(&mut st, base, cdid, cargs, argv, argtys, dest, dty, *target, tsp) {
                         Ok(None) => {}
                         Ok(Some(o)) => return o,
+                        Err(e) if e.starts_with("PANIC:") => {
+                            self.stats.borrow_mut().leaves += 1;
+                            return Outcome::Panic(e[6..].to_string(), self.span_str(tsp));
+                        }
                         Err(e) => return self.top(e, tsp),
                     }
                 }
@@ -1276,7 +1401,85 @@ impl<'tcx> Cx<'tcx> {
             }
             _ => {}
         }
-        if pretty.ends_with("::get_unchecked") || pretty.ends_with("::get_unchecked_mut") {
+        if let Some(m) = pretty.strip_prefix("core::slice::<impl [T]>::").or_else(|| pretty.strip_prefix("std::slice::<impl [T]>::")) {
+            if let Some(V::Ref(p)) = argv.first() {
+                if let Some((start, len)) = p.win {
+                    let some = |v: V<'tcx>| V::Enum(1, vec![v]);
+                    let none = V::Enum(0, vec![]);
+                    let sub = |a: usize, l: usize| {
+                        let mut q = p.clone();
+                        q.win = Some((start + a, l));
+                        V::Ref(q)
+                    };
+                    let idx = |k: usize| -> Option<usize> {
+                        match argv.get(k) {
+                            Some(V::Int(i)) => Some(*i as usize),
+                            _ => None,
+                        }
+                    };
+                    let is_usize = |k: usize| argtys.get(k).map(|t| matches!(t.kind(), ty::Uint(ty::UintTy::Usize))).unwrap_or(false);
+                    match m {
+                        "len" => return Ok(Some(V::Int(len as u128))),
+                        "is_empty" => return Ok(Some(V::Int((len == 0) as u128))),
+                        "iter" | "iter_mut" => return Ok(Some(V::Iter { ptr: p.clone(), front: 0, back: len, by_value: false })),
+                        "first" | "first_mut" => return Ok(Some(if len > 0 { some(V::Ref(self.elem_ptr(p, 0)?)) } else { none })),
+                        "last" | "last_mut" => return Ok(Some(if len > 0 { some(V::Ref(self.elem_ptr(p, len - 1)?)) } else { none })),
+                        "get" | "get_mut" if is_usize(1) => {
+                            if let Some(i) = idx(1) {
+                                return Ok(Some(if i < len { some(V::Ref(self.elem_ptr(p, i)?)) } else { none }));
+                            }
+                        }
+                        "swap" => {
+                            if let (Some(a), Some(b)) = (idx(1), idx(2)) {
+                                let (pa, pb) = (self.elem_ptr(p, a)?, self.elem_ptr(p, b)?);
+                                let (va, vb) = (self.read(st, &pa)?, self.read(st, &pb)?);
+                                self.write(st, &pa, vb)?;
+                                self.write(st, &pb, va)?;
+                                return Ok(Some(unit));
+                            }
+                        }
+                        "split_at" | "split_at_mut" => {
+                            if let Some(mid) = idx(1) {
+                                if mid > len {
+                                    return Err("PANIC:split_at: mid > len".into());
+                                }
+                                return Ok(Some(V::Agg(vec![sub(0, mid), sub(mid, len - mid)])));
+                            }
+                        }
+                        "split_first" | "split_first_mut" => {
+                            return Ok(Some(if len > 0 { some(V::Agg(vec![V::Ref(self.elem_ptr(p, 0)?), sub(1, len - 1)])) } else { none }));
+                        }
+                        "split_last" | "split_last_mut" => {
+                            return Ok(Some(if len > 0 { some(V::Agg(vec![V::Ref(self.elem_ptr(p, len - 1)?), sub(0, len - 1)])) } else { none }));
+                        }
+                        "get_unchecked" | "get_unchecked_mut" if is_usize(1) => {
+                            if let Some(i) = idx(1) {
+                                if i >= len {
+                                    return Err(format!("unchecked out-of-bounds access: index {} of a slice of length {}", i, len));
+                                }
+                                return Ok(Some(V::Ref(self.elem_ptr(p, i)?)));
+                            }
+                        }
+                        "as_ptr" | "as_mut_ptr" if len > 0 => return Ok(Some(V::Ref(self.elem_ptr(p, 0)?))),
+                        _ => {}
+                    }
+                }
+            }
+        }
+        // by-value array iteration
+        if name == "core::iter::traits::collect::IntoIterator::into_iter" {
+            if let (Some(t0), Some(v0)) = (argtys.first(), argv.first()) {
+                if let (ty::Array(_, n), V::Agg(_) | V::Undef) = (t0.kind(), v0) {
+                    if let Some(n) = n.try_to_target_usize(self.tcx) {
+                        st.cells.push(Cell { ty: *t0, v: v0.clone(), name: None });
+                        let mut q = ptr0(st.cells.len() - 1);
+                        q.win = Some((0, n as usize));
+                        return Ok(Some(V::Iter { ptr: q, front: 0, back: n as usize, by_value: true }));
+                    }
+                }
+            }
+        }
+        if pretty == "core::slice::<impl [T]>::get_unchecked" || pretty == "core::slice::<impl [T]>::get_unchecked_mut" || pretty == "std::slice::<impl [T]>::get_unchecked" || pretty == "std::slice::<impl [T]>::get_unchecked_mut" {
             if let (V::Ref(a), V::Int(i)) = (&argv[0], &argv[1]) {
                 let pty = self.ptr_ty(st, a)?;
                 let n = self.field_tys(pty).map(|f| f.len());
@@ -1360,9 +1563,14 @@ impl<'tcx> Cx<'tcx> {
             finish(self, st, r)?;
             return Ok(None);
         }
-        let always_opaque = name == "core::iter::traits::iterator::Iterator::fold"
-            || pretty == "core::slice::<impl [T]>::iter"
-            || pretty == "core::slice::<impl [T]>::iter_mut"
+        let concrete_iter = argv.first().map(|a| self.has_iter(st, a, 0)).unwrap_or(false);
+        if concrete_iter {
+            if let Some(o) = self.iter_call(st, base, cdid, cargs, &argv, &argtys, &dest, dty, target, sp)? {
+                return Ok(o);
+            }
+        }
+        let always_opaque = name == "core::iter::traits::iterator::Iterator::fold" && !concrete_iter
+            || (pretty == "core::slice::<impl [T]>::iter" || pretty == "core::slice::<impl [T]>::iter_mut") && !matches!(argv.first(), Some(V::Ref(p)) if p.win.is_some())
             || name.starts_with("core::slice::index")
             || name == "core::ops::index::Index::index" && cargs.len() > 0 && matches!(cargs[0].expect_ty().kind(), ty::Slice(_) | ty::Array(..)) && !matches!(argv.get(1), Some(V::Int(_)))
             || name == "core::ops::index::IndexMut::index_mut" && cargs.len() > 0 && matches!(cargs[0].expect_ty().kind(), ty::Slice(_) | ty::Array(..)) && !matches!(argv.get(1), Some(V::Int(_)));
@@ -1479,6 +1687,128 @@ impl<'tcx> Cx<'tcx> {
         Ok(None)
     }
 
+    fn has_iter(&self, st: &State<'tcx>, v: &V<'tcx>, depth: usize) -> bool {
+        if depth > 6 {
+            return false;
+        }
+        match v {
+            V::Iter { .. } => true,
+            V::Agg(fs) | V::Enum(_, fs) => fs.iter().any(|f| self.has_iter(st, f, depth + 1)),
+            V::Ref(p) if p.win.is_none() => self.read(st, p).map(|x| self.has_iter(st, &x, depth + 1)).unwrap_or(false),
+            _ => false,
+        }
+    }
+
+    /// Calls whose receiver is (or wraps) an abstract slice / array cursor.  The cursor's own methods are models;
+    /// every other provided Iterator method is run through the trait's DEFAULT body (core's slice iterators override
+    /// them with pointer arithmetic that is outside the memory model).
+    #[allow(clippy::too_many_arguments)]
+    fn iter_call(
+        &self,
+        st: &mut State<'tcx>,
+        _base: usize,
+        cdid: DefId,
+        cargs: GenericArgsRef<'tcx>,
+        argv: &[V<'tcx>],
+        _argtys: &[Ty<'tcx>],
+        dest: &Ptr<'tcx>,
+        _dty: Ty<'tcx>,
+        target: Option<BasicBlock>,
+        _sp: Span,
+    ) -> R<Option<Option<Outcome<'tcx>>>> {
+        let tcx = self.tcx;
+        let mname = tcx.item_name(cdid).to_string();
+        // is the receiver itself a cursor (possibly behind a reference)?
+        let (slot, cur) = match &argv[0] {
+            V::Ref(p) => match self.read(st, p)? {
+                it @ V::Iter { .. } => (Some(p.clone()), Some(it)),
+                _ => (None, None),
+            },
+            it @ V::Iter { .. } => (None, Some(it.clone())),
+            _ => (None, None),
+        };
+        if let Some(V::Iter { ptr, front, back, by_value }) = cur {
+            let some = |v: V<'tcx>| V::Enum(1, vec![v]);
+            let none = V::Enum(0, vec![]);
+            let elem = |i: usize| -> R<V<'tcx>> {
+                let (start, _) = ptr.win.ok_or("cursor without window")?;
+                let mut q = ptr.clone();
+                q.win = None;
+                q.segs.last_mut().unwrap().path.push(PE::F(start + i));
+                if by_value {
+                    self.read(st, &q)
+                } else {
+                    Ok(V::Ref(q))
+                }
+            };
+            let result: Option<(V<'tcx>, Option<V<'tcx>>)> = match mname.as_str() {
+                "next" => Some(if front < back { (some(elem(front)?), Some(V::Iter { ptr: ptr.clone(), front: front + 1, back, by_value })) } else { (none, None) }),
+                "next_back" => Some(if front < back { (some(elem(back - 1)?), Some(V::Iter { ptr: ptr.clone(), front, back: back - 1, by_value })) } else { (none, None) }),
+                "size_hint" => Some((V::Agg(vec![V::Int((back - front) as u128), some(V::Int((back - front) as u128))]), None)),
+                "len" | "size" => Some((V::Int((back - front) as u128), None)),
+                "__iterator_get_unchecked" => match argv.get(1) {
+                    Some(V::Int(i)) if front + (*i as usize) < back => Some((elem(front + *i as usize)?, None)),
+                    _ => return Err("iterator random access out of range".into()),
+                },
+                "into_iter" | "by_ref" => Some((argv[0].clone(), None)),
+                "clone" => Some((V::Iter { ptr: ptr.clone(), front, back, by_value }, None)),
+                _ => None,
+            };
+            if let Some((ret, newstate)) = result {
+                if let Some(ns) = newstate {
+                    match &slot {
+                        Some(p) => self.write(st, p, ns)?,
+                        None => return Err("cursor advanced by value".into()),
+                    }
+                }
+                self.write(st, dest, ret)?;
+                self.goto(st, target.ok_or("diverging iterator call")?);
+                return Ok(Some(None));
+            }
+        }
+        // a provided method of Iterator / DoubleEndedIterator / ExactSizeIterator on a concrete cursor or an adaptor around one:
+        // use the trait's default body instead of a specialised override
+        if let Some(tr) = tcx.trait_of_assoc(cdid) {
+            let tname = self.iname(tr);
+            let provided = tcx.defaultness(cdid).has_value();
+            if provided && (tname == "core::iter::traits::iterator::Iterator" || tname == "core::iter::traits::double_ended::DoubleEndedIterator") && tcx.is_mir_available(cdid) {
+                // only when the resolved impl method is an override inside core's slice/array iterator modules
+                if let Ok(Some(inst)) = Instance::try_resolve(tcx, self.tenv, cdid, cargs) {
+                    let rn = self.iname(inst.def_id());
+                    let overridden = inst.def_id() != cdid && (rn.starts_with("core::slice::iter") || rn.starts_with("core::array::iter"));
+                    if overridden {
+                        let dinst = Instance::new_raw(cdid, cargs);
+                        self.push_frame(st, dinst, argv.to_vec(), dest.clone(), target)?;
+                        return Ok(Some(None));
+                    }
+                }
+            }
+        }
+        Ok(None)
+    }
+
+    fn push_frame(&self, st: &mut State<'tcx>, inst: Instance<'tcx>, argv: Vec<V<'tcx>>, dest: Ptr<'tcx>, target: Option<BasicBlock>) -> R<()> {
+        let tcx = self.tcx;
+        if st.frames.len() > DEPTH_CAP {
+            return Err("inlining depth cap".into());
+        }
+        let body = tcx.instance_mir(inst.def);
+        if body.arg_count != argv.len() {
+            return Err("argument count mismatch (default iterator method)".into());
+        }
+        let mut locals = vec![];
+        for decl in body.local_decls.iter() {
+            let lty = inst.instantiate_mir_and_normalize_erasing_regions(tcx, self.tenv, EarlyBinder::bind(decl.ty));
+            st.cells.push(Cell { ty: lty, v: V::Undef, name: None });
+            locals.push(st.cells.len() - 1);
+        }
+        for (i, a) in argv.iter().enumerate() {
+            st.cells[locals[i + 1]].v = a.clone();
+        }
+        st.frames.push(Frame { visits: vec![], inst, body, locals, bb: mir::START_BLOCK, ret_to: Some((dest, target)) });
+        Ok(())
+    }
+
     /// Summary of the callable passed to `Iterator::fold`, applied to fresh symbols (K7).
     fn lambda(&self, st: &State<'tcx>, fold_args: GenericArgsRef<'tcx>, f: &V<'tcx>, fty: Ty<'tcx>, acc_ty: Ty<'tcx>) -> String {
         let tcx = self.tcx;
@@ -1545,6 +1875,7 @@ impl<'tcx> Cx<'tcx> {
             V::Int(i) => format!("{{\"i\":\"{}\"}}", i),
             V::Str(s) => format!("{{\"s\":{}}}", jstr(s)),
             V::Undef => "{\"u\":1}".to_string(),
+            V::Iter { front, back, .. } => format!("{{\"iter\":[{},{}]}}", front, back),
             V::Fn(t) => format!("{{\"fn\":{}}}", jstr(&format!("{:?}", t))),
             V::Agg(fs) => {
                 let ftys = self.field_tys(ty);
